@@ -42,6 +42,8 @@ pub fn rich_store() -> Store {
     let a = s.ents.get_mut(&ua()).unwrap();
     a.attrs.insert("fav".into(), Val::Uid(color("red")));
     a.attrs.insert("cols".into(), Val::set(vec![Val::Uid(color("red")), Val::Uid(color("green"))]));
+    a.attrs.insert("pals".into(), Val::set(vec![Val::set(vec![Val::Uid(color("red"))]), Val::set(vec![])]));
+    a.attrs.insert("recs".into(), Val::set(vec![rec(vec![("c", Val::Uid(color("green")))]), rec(vec![("c", Val::Uid(color("red"))), ("o", Val::Long(1))])]));
     let d = s.ents.get_mut(&dd()).unwrap();
     d.attrs.insert("meta".into(), rec(vec![("pub", Val::Bool(true)), ("rev", Val::Long(2)), ("col", Val::Uid(color("green")))]));
     let mut p = Ent::default();
@@ -76,6 +78,14 @@ pub fn base_requests() -> Vec<Req> {
     c.insert("flag".to_string(), Val::Bool(true));
     v.push(Req { principal: ua(), action: view(), resource: dd(), context: c });
     v.push(Req { principal: ua(), action: edit(), resource: gg(), context: BTreeMap::new() });
+    // a lean view request: every optional context attribute absent, optional nested attribute absent
+    let mut c = BTreeMap::new();
+    c.insert("n".to_string(), Val::Long(1));
+    v.push(Req { principal: ub(), action: view(), resource: dd(), context: c });
+    let mut c = BTreeMap::new();
+    c.insert("n".to_string(), Val::Long(2));
+    c.insert("rec".to_string(), rec(vec![("a", Val::Long(1))]));
+    v.push(Req { principal: ua(), action: view(), resource: dd(), context: c });
     let mut c = BTreeMap::new();
     c.insert("cs".to_string(), Val::set(vec![Val::Uid(color("red"))]));
     v.push(Req { principal: color("red"), action: Uid::new("Action", "paint"), resource: pal(), context: c });
@@ -161,6 +171,12 @@ pub fn faults(store: &Store, req: &Req) -> Vec<Fault> {
     });
     ef("enum-id-not-declared:in-attr", a.clone(), &|s| set_attr(s, &ua(), "fav", Val::Uid(color("blue"))));
     ef("enum-id-not-declared:in-set", a.clone(), &|s| set_attr(s, &ua(), "cols", Val::set(vec![Val::Uid(color("red")), Val::Uid(color("blue"))])));
+    ef("enum-id-not-declared:in-set-of-sets", a.clone(), &|s| set_attr(s, &ua(), "pals", Val::set(vec![Val::set(vec![Val::Uid(color("red"))]), Val::set(vec![Val::Uid(color("blue"))])])));
+    ef("enum-id-not-declared:in-set-of-records", a.clone(), &|s| set_attr(s, &ua(), "recs", Val::set(vec![rec(vec![("c", Val::Uid(color("blue")))])])));
+    ef("wrong-type:in-set-of-records", a.clone(), &|s| set_attr(s, &ua(), "recs", Val::set(vec![rec(vec![("c", Val::Uid(color("red"))), ("o", Val::Str("x".into()))])])));
+    ef("undeclared-attr:in-set-of-records", a.clone(), &|s| set_attr(s, &ua(), "recs", Val::set(vec![rec(vec![("c", Val::Uid(color("red"))), ("zz", Val::Long(1))])])));
+    ef("missing-required:in-set-of-records", a.clone(), &|s| set_attr(s, &ua(), "recs", Val::set(vec![rec(vec![("o", Val::Long(1))])])));
+    ef("wrong-element:in-set-of-sets", a.clone(), &|s| set_attr(s, &ua(), "pals", Val::set(vec![Val::set(vec![Val::Long(1)])])));
     ef("enum-id-not-declared:in-record", d.clone(), &|s| set_attr(s, &dd(), "meta", rec(vec![("pub", Val::Bool(true)), ("col", Val::Uid(color("blue")))])));
     ef("enum-id-not-declared:as-parent", p.clone(), &|s| {
         s.ents.get_mut(&pal()).unwrap().parents.insert(color("blue"));
@@ -273,6 +289,30 @@ pub fn faults(store: &Store, req: &Req) -> Vec<Fault> {
     rf("context:undeclared-attr", Part::Context, &|r| {
         r.context.insert("extra".into(), Val::Long(1));
         true
+    });
+    rf("context:nested-undeclared-attr", Part::Context, &|r| {
+        if is_view {
+            r.context.insert("rec".into(), rec(vec![("a", Val::Long(1)), ("zz", Val::Long(1))]));
+            true
+        } else {
+            false
+        }
+    });
+    rf("context:nested-wrong-type", Part::Context, &|r| {
+        if is_view {
+            r.context.insert("rec".into(), rec(vec![("a", Val::Str("1".into()))]));
+            true
+        } else {
+            false
+        }
+    });
+    rf("context:nested-missing-required", Part::Context, &|r| {
+        if is_view {
+            r.context.insert("rec".into(), rec(vec![("b", Val::Long(1))]));
+            true
+        } else {
+            false
+        }
     });
     rf("enum-id-not-declared:in-context", Part::Context, &|r| {
         if is_view {
